@@ -25,8 +25,10 @@ type Knobs struct {
 	EpollEINTR   int
 	EpollClip    int
 	AcceptEAGAIN int
-	// EMFILE on accept/socket while EMFILEActive is set by the scenario
-	EMFILEActive bool
+	// EMFILE on accept while EMFILEActive is set by the scenario
+	EMFILEActive    bool
+	SocketEMFILE    bool
+	EpollCreateFail bool
 	// dedicated configurations
 	EpollCtlAddFail int
 	SetsockoptFail  int
@@ -90,6 +92,7 @@ func Reset() {
 	tripwires = tripwires[:0]
 	NetpollOpen = 0
 	K = Knobs{}
+	vnetReset()
 	if marker < 0 {
 		fd, err := syscall.Open("/dev/null", syscall.O_RDONLY|syscall.O_CLOEXEC, 0)
 		if err != nil {
@@ -213,6 +216,7 @@ func Close(fd int) error {
 	}
 	wasSim := simrt.InSim()
 	*inf = FDInfo{}
+	vconns[fd] = nil
 	for i := range FDs { // the kernel drops epoll registrations of a closed descriptor
 		if FDs[i].EpollIn == fd {
 			FDs[i].EpollIn = 0
@@ -367,11 +371,17 @@ func Accept4(fd, flags int) (int, syscall.Sockaddr, error) {
 //go:norace
 func Socket(domain, typ, proto int) (int, error) {
 	simrt.Yield("sys.socket", 1)
-	if K.EMFILEActive {
+	if K.SocketEMFILE {
 		simrt.CountFault("socket_emfile")
 		return -1, syscall.EMFILE
 	}
-	fd, err := syscall.Socket(domain, typ, proto)
+	var fd int
+	var err error
+	if isInet(domain) && simrt.InSim() {
+		fd, err = vsocket(domain, typ, proto)
+	} else {
+		fd, err = syscall.Socket(domain, typ, proto)
+	}
 	if err == nil {
 		opened(fd, OwnNetpoll, "socket")
 	}
@@ -394,6 +404,9 @@ func Socketpair(domain, typ, proto int) ([2]int, error) {
 //go:norace
 func Connect(fd int, sa syscall.Sockaddr) error {
 	simrt.Yield("sys.connect", 1)
+	if fd >= 0 && fd < MaxFD && vconns[fd] != nil {
+		return vconnect(fd, vconns[fd], sa)
+	}
 	err := syscall.Connect(fd, sa)
 	ev("connect", fd, 0, errnoOf(err), 0)
 	return err
@@ -424,16 +437,42 @@ func SetsockoptInt(fd, level, opt, value int) error {
 		ev("setsockopt", fd, 0, syscall.ENOBUFS, opt)
 		return syscall.ENOBUFS
 	}
+	if fd >= 0 && fd < MaxFD && vconns[fd] != nil && (level == syscall.IPPROTO_TCP || level == syscall.IPPROTO_IPV6 || level == syscall.IPPROTO_IP) {
+		return nil // TCP/IP level options of a virtual TCP socket
+	}
 	return syscall.SetsockoptInt(fd, level, opt, value)
 }
 
 func GetsockoptInt(fd, level, opt int) (int, error) {
 	simrt.Yield("sys.getsockopt", 1)
+	if fd >= 0 && fd < MaxFD && vconns[fd] != nil && level == syscall.SOL_SOCKET && opt == syscall.SO_ERROR {
+		vc := vconns[fd]
+		if vc.pending {
+			return int(syscall.EINPROGRESS), nil
+		}
+		e := vc.soerr
+		vc.soerr = 0
+		return int(e), nil
+	}
 	return syscall.GetsockoptInt(fd, level, opt)
 }
 
-func Getsockname(fd int) (syscall.Sockaddr, error) { return syscall.Getsockname(fd) }
-func Getpeername(fd int) (syscall.Sockaddr, error) { return syscall.Getpeername(fd) }
+func Getsockname(fd int) (syscall.Sockaddr, error) {
+	if fd >= 0 && fd < MaxFD && vconns[fd] != nil {
+		return vAddr(vconns[fd], true), nil
+	}
+	return syscall.Getsockname(fd)
+}
+
+func Getpeername(fd int) (syscall.Sockaddr, error) {
+	if fd >= 0 && fd < MaxFD && vconns[fd] != nil {
+		if !vconns[fd].connected {
+			return nil, syscall.ENOTCONN
+		}
+		return vAddr(vconns[fd], false), nil
+	}
+	return syscall.Getpeername(fd)
+}
 
 func Recvmsg(fd int, p, oob []byte, flags int) (int, int, int, syscall.Sockaddr, error) {
 	simrt.Yield("sys.recvmsg", 1)
@@ -574,7 +613,7 @@ func RawSyscall(trap, a1, a2, a3 uintptr) (uintptr, uintptr, syscall.Errno) {
 		return r, 0, e
 	case syscall.SYS_EPOLL_CREATE1:
 		simrt.Yield("sys.epoll_create", 1)
-		if K.EMFILEActive {
+		if K.EpollCreateFail {
 			return errRet, 0, syscall.EMFILE
 		}
 		r, r2, e := syscall.RawSyscall(trap, a1, a2, a3)
@@ -652,6 +691,20 @@ func RawSyscall6(trap, a1, a2, a3, a4, a5, a6 uintptr) (uintptr, uintptr, syscal
 			ev("epoll_ctl", fd, op, syscall.ENOSPC, epfd)
 			return errRet, 0, syscall.ENOSPC
 		}
+		if fd >= 0 && fd < MaxFD && vconns[fd] != nil && vconns[fd].pending {
+			// a TCP socket in SYN_SENT reports nothing; the unix socket behind it would: hold the
+			// registration back until the virtual handshake has finished
+			vc := vconns[fd]
+			switch op {
+			case syscall.EPOLL_CTL_ADD, syscall.EPOLL_CTL_MOD:
+				vc.hasReg, vc.regEpfd = true, epfd
+				copy(vc.regEvent[:], unsafe.Slice((*byte)(unsafe.Pointer(a4)), 12))
+			case syscall.EPOLL_CTL_DEL:
+				vc.hasReg = false
+			}
+			ev("epoll_ctl", fd, op, 0, -1)
+			return 0, 0, 0
+		}
 		r, r2, e := syscall.RawSyscall6(trap, a1, a2, a3, a4, a5, a6)
 		if e == 0 && fd >= 0 && fd < MaxFD {
 			switch op {
@@ -704,7 +757,7 @@ func Syscall(trap, a1, a2, a3 uintptr) (uintptr, uintptr, syscall.Errno) {
 	switch trap {
 	case syscall.SYS_EVENTFD2:
 		simrt.Yield("sys.eventfd", 1)
-		if K.EMFILEActive || simrt.FaultChance(K.EventfdFail) {
+		if simrt.FaultChance(K.EventfdFail) {
 			simrt.CountFault("eventfd_fail")
 			return errRet, 0, syscall.EMFILE
 		}
